@@ -162,6 +162,44 @@ fn c07_encoder(chk: &Check) {
     });
     chk.add_eval(evals.load(Ordering::Relaxed));
     chk.add_nontrivial(nonzero.load(Ordering::Relaxed));
+    // history independence: every ordered pair of messages over 16 channels x 32 controllers x 6
+    // values, encoded back to back on one thread; the second is judged
+    let vals = [0u16, 1, 127, 128, 8192, 16383];
+    let mut dom: Vec<(u8, u8, u16)> = Vec::new();
+    for c in 0..16u8 {
+        for n in 0..32u8 {
+            for v in vals {
+                dom.push((c, n, v));
+            }
+        }
+    }
+    let enc = |&(c, n, v): &(u8, u8, u16)| {
+        let m = ControlChange14BitMessage::new(ch(c), cn(n), u14(v));
+        let r: [RawShortMessage; 2] = m.to_short_messages();
+        let s: [StructuredShortMessage; 2] = m.to_short_messages();
+        let r2: [RawShortMessage; 2] = m.into();
+        let s2: [StructuredShortMessage; 2] = m.into();
+        let b = |t: (u8, U7, U7)| (t.0, t.1.get(), t.2.get());
+        [[b(r[0].to_bytes()), b(r[1].to_bytes())], [b(s[0].to_bytes()), b(s[1].to_bytes())], [b(r2[0].to_bytes()), b(r2[1].to_bytes())], [b(s2[0].to_bytes()), b(s2[1].to_bytes())]]
+    };
+    dom.par_iter().for_each(|a| {
+        let r = catch(|| {
+            for bmsg in dom.iter() {
+                let _ = std::hint::black_box(enc(a));
+                let got = enc(bmsg);
+                let (c, n, v) = *bmsg;
+                let want = [(0xB0 | c, n, (v >> 7) as u8), (0xB0 | c, n + 32, (v & 0x7f) as u8)];
+                if got.iter().any(|g| *g != want) {
+                    vio!(chk, "encoding-depends-on-previous-call", "encoder-pairs", format!("cc14pair|{:?}|{:?}", a, bmsg), format!("after encoding (ch, cn, value) = {:?}, the encodings of {:?} are {:?}, expected {:?}", a, bmsg, got, want));
+                }
+            }
+        });
+        if let Err(p) = r {
+            vio!(chk, "panics-on-valid-input", "encoder-pairs", format!("cc14pair|{:?}|*", a), format!("encoder panicked in the pair sweep after {:?}: {}", a, p));
+        }
+    });
+    chk.add_eval((dom.len() * dom.len()) as u64);
+    chk.push("ordered_pairs", json!({"domain": dom.len(), "pairs": dom.len() * dom.len()}));
 }
 
 /// Inversion from every reachable prior state: `states` are real scanner values; for every
